@@ -342,6 +342,8 @@ def rule_norm_dimension(repo: Repo) -> List[Ob]:
             return 2
         if isinstance(e, ast.Call) and call_name(e) in ("norm", "length"):
             return 1
+        if isinstance(e, ast.Call) and "bound" in (call_name(e) or ""):
+            return 1          # faccin_bound(...): the bound on the norm of a basis vector, whatever the local is called
         if isinstance(e, ast.Name):
             r = resolve_alias(e, defs)
             if r is not e:
@@ -389,8 +391,9 @@ def rule_mahler(repo: Repo) -> List[Ob]:
     key = "utils/algebraic_numbers.py::faccin_height::leading-coefficient"
     defs = Defs(f.node, None)
     # the accumulator that is multiplied by max(Abs(root), 1) ** mult
+    from ..shape import inline_locals
     accs = [n for n in walk_no_nested(f.node) if isinstance(n, ast.AugAssign) and isinstance(n.op, ast.Mult) and isinstance(n.target, ast.Name)
-            and any(isinstance(x, ast.Call) and call_name(x) == "max" for x in ast.walk(n.value))]
+            and any(isinstance(x, ast.Call) and call_name(x) == "max" for x in ast.walk(inline_locals(n.value, defs)))]
     start = None
     if accs:
         inits = [v for v, st in zip(defs.defs.get(accs[0].target.id, []), defs.def_sites.get(accs[0].target.id, [])) if isinstance(st, ast.Assign) and isinstance(v, ast.expr)]
